@@ -366,6 +366,34 @@ def p1_input_panics(F, r):
         raise AnchorError(f"only {n_direct} direct and {n_callee} callee rows found")
 
 
+def r1_relation_shift(F, r):
+    """relation rules: whenever a relation rule looks at the shifts of the relation's vehicle it selects the shift by the relation's own shift index"""
+    n = 0
+    for fid, fn in sorted(F.fns.items()):
+        if fn["kind"] == "Closure" or "::promoted[" in fid or not fn["module"].startswith("vrp_pragmatic::validation::relations"):
+            continue
+        reads_shifts = reads_idx = False
+        where = None
+        for g in F.family(fid):
+            for p in util.all_places(F.fns[g]):
+                for adt, f in mir.proj_fields(p):
+                    if f == "shifts" and adt.endswith("VehicleType"):
+                        reads_shifts = True
+                        where = g
+                    if f == "shift_index" and adt.endswith("Relation"):
+                        reads_idx = True
+        if not reads_shifts:
+            continue
+        n += 1
+        if reads_idx:
+            r.ok(util.short_fn(fid), "shift selected by relation.shift_index")
+        else:
+            r.fail(util.short_fn(fid), "the rule inspects the vehicle's shifts without the relation's shift index (first shift only?): relations of any other shift are validated against the "
+                   "wrong shift's breaks / reloads / places", F.loc(where))
+    if n < 2:
+        raise AnchorError(f"only {n} relation rules read vehicle shifts")
+
+
 def run(ctx):
     ctx.explanation = (
         "Structural clauses of `validation is total and matches its documented rules`: validation dominates (through the Ok edge of `?`) every reader "
@@ -379,4 +407,5 @@ def run(ctx):
     ctx.run("C10-V2", "every validation rule function is reachable from ValidationContext::validate; module validators aggregate all results", v2_rules_wired, floor=38)
     ctx.run("C10-V3", "code literal == rule name; codes in code == codes in docs", v3_code_tables, floor=30)
     ctx.run("C10-P1", "input-derived panics (narrow): direct unwrap/expect/index on document values are confirmed guarded; fields fed to panicking parsers are read by validation", p1_input_panics, floor=10)
+    ctx.run("C10-R1", "relation rules select the vehicle shift by the relation's shift index", r1_relation_shift, floor=2)
     ctx.run("C10-V4", "no Result produced in validation is dropped", v4_no_dropped_results, floor=1)
